@@ -43,7 +43,8 @@ S_TALES = [K("k3::S-Pipe3"), K("k3::S-Not"), K("k3::S-Exists")]
 S_INTERP = [K("k3::S-Interp-text"), K("k3::S-Interp-off")]
 S_I18N = [K("k3::S-Translate-name"), K("k3::S-Translate-id"), K("k3::S-Translate-empty"),
           K("k3::S-I18nDomain"), K("k3::S-I18nContext"), K("k3::S-I18nTarget")]
-S_METAL = [K("k3::S-UseExternal"), K("k3::S-MacroUseInternal"), K("k3::S-MacroBody")]
+S_METAL = [K("k3::S-UseExternal"), K("k3::S-MacroUseInternal"), K("k3::S-MacroBody"),
+           K("k3::S-MacroUseInternal-after-expr")]
 K2Q = [K("compiler.py::K2.__quote"), K("compiler.py::K2.__quote@char")]
 K3TECH = TECH + "; applied to code emitted by the real compiler for schema templates (K3)"
 
@@ -106,7 +107,8 @@ PROPS = {
         "expression is evaluated is proved to be the recorded position of exactly that expression's "
         "text, and the token table entries are checked against the template source.",
         TAL_BASIC + S_TALES + S_INTERP + [K("k3::S-OnError-keep"), K("k3::S-I18nTarget"),
-                                            K("k3::S-UseExternal"), K("k3::S-MacroUseInternal")],
+                                            K("k3::S-UseExternal"), K("k3::S-MacroUseInternal"),
+                                            K("k3::S-MacroUseInternal-after-expr")],
         ["BaseTemplate.render exception flow and create_formatted_exception (pending)",
          "ExceptionFormatter record order (pending)"]),
     "C14": {
